@@ -36,7 +36,7 @@ func genC11(t *rapid.T) c11Case {
 	}
 	n := rapid.IntRange(4, 40).Draw(t, "nops")
 	for i := 0; i < n; i++ {
-		op := c11Op{Op: rapid.SampledFrom([]string{"set", "set", "set", "set", "fetch", "fetch", "fetch", "clean", "purge", "pause", "cache", "restart", "burst"}).Draw(t, "op")}
+		op := c11Op{Op: rapid.SampledFrom([]string{"set", "set", "set", "set", "fetch", "fetch", "fetch", "clean", "purge", "pause", "cache", "restart", "burst", "race", "race"}).Draw(t, "op")}
 		op.Key = rapid.IntRange(0, c.Keys-1).Draw(t, "key")
 		op.Val = int64(rapid.IntRange(0, 1000000).Draw(t, "val"))
 		op.N = rapid.IntRange(1, 12).Draw(t, "n")
@@ -146,6 +146,64 @@ func runC11(c c11Case, o *vfutil.Obs) *vfutil.Failure {
 		case "burst": // several keys at once, rolls segments
 			for i := 0; i < op.N; i++ {
 				doSet((op.Key+i)%c.Keys, op.Val+int64(i))
+			}
+		case "race":
+			// concurrent SetCursor calls for one cursor: whichever was stored last
+			// in the cursors partition is what FetchCursor must return, through the
+			// cache and through the log alike
+			k := op.Key % c.Keys
+			id, st, p := keyOf(k)
+			n := 2 + op.N%3
+			var wg sync.WaitGroup
+			errs := make([]error, n)
+			for i := 0; i < n; i++ {
+				wg.Add(1)
+				go func(i int) {
+					defer wg.Done()
+					ctx, cancel := ctxFor("", 10*time.Second)
+					_, errs[i] = l.s.api.SetCursor(ctx, &client.SetCursorRequest{Stream: st, Partition: p, CursorId: id, Offset: op.Val + int64(i)})
+					cancel()
+				}(i)
+			}
+			wg.Wait()
+			fetchBoth := func(off bool) (int64, error) {
+				l.s.cursors.disableCache = off
+				ctx, cancel := ctxFor("", 10*time.Second)
+				defer cancel()
+				resp, err := l.s.api.FetchCursor(ctx, &client.FetchCursorRequest{Stream: st, Partition: p, CursorId: id})
+				if err != nil {
+					return 0, err
+				}
+				return resp.Offset, nil
+			}
+			viaCache, err1 := fetchBoth(false)
+			viaLog, err2 := fetchBoth(true)
+			l.s.cursors.disableCache = cacheOff
+			hist = append(hist, fmt.Sprintf("race(k%d x%d)=cache:%d,log:%d", k, n, viaCache, viaLog))
+			o.Label("concurrent-sets")
+			if err1 == nil && err2 == nil {
+				if viaCache != viaLog {
+					return vfutil.Failf("C11/wrong-cursor/cache-disagrees-with-log", "after %d concurrent SetCursor calls for (%s,%s,%d) FetchCursor returns %d from the cache but the last cursor stored in the cursors partition is %d; history %v", n, id, st, p, viaCache, viaLog, tailS(hist, 40))
+				}
+				ok := false
+				for i := 0; i < n; i++ {
+					if errs[i] == nil && viaLog == op.Val+int64(i) {
+						ok = true
+					}
+				}
+				allFailed := true
+				for i := 0; i < n; i++ {
+					if errs[i] == nil {
+						allFailed = false
+					}
+				}
+				if !ok && !allFailed {
+					return vfutil.Failf("C11/wrong-cursor/stale-value", "after concurrent SetCursor calls with offsets %d..%d FetchCursor returns %d; history %v", op.Val, op.Val+int64(n)-1, viaLog, tailS(hist, 40))
+				}
+				if !allFailed {
+					model[fmt.Sprintf("%s,%s,%d", id, st, p)] = viaLog
+					setsSinceClean++
+				}
 			}
 		case "fetch":
 			if cacheOff || len(hist) > 0 {
